@@ -437,7 +437,7 @@ pub fn c05(opts: &Opts) -> Report {
         opts.cases(150, 2_000), &|ctx, i| {
             let n = 2 + ctx.rng.below(if i % 10 == 0 { 119 } else { 30 });
             // pool for this history
-            let mut inputs: Vec<String> = vec![COLLIDE_A.into(), COLLIDE_B.into(), "a,b,c".into(), "a,b,d".into(), "a;b;c".into(), "hello world".into(), "HELLO world".into(), "how o w\nHow".into(), String::new()];
+            let mut inputs: Vec<String> = vec![COLLIDE_A.into(), COLLIDE_B.into(), "a,b,c".into(), "a,b,d".into(), "a;b;c".into(), "hello world".into(), "HELLO world".into(), "how o w\nHow".into(), String::new(), "k1,k2 k3".into(), "a;b c;d e".into()];
             if i % 3 == 0 { inputs.push(big_input(&mut ctx.rng)); inputs.push(big_input(&mut ctx.rng)); }
             let templates: Vec<(String, Vec<Section>)> = {
                 let mut v: Vec<Vec<Seg>> = vec![
@@ -457,6 +457,11 @@ pub fn c05(opts: &Opts) -> Report {
                     vec![Seg::Sec(vec![Op::Split(",".into(), Range::Range(None, None, false)), Op::Filter("^[ab]$".into())])],
                     vec![Seg::Sec(vec![Op::Split(",".into(), Range::Range(None, None, false)), Op::Filter("(".into())])],   // failing call
                     vec![Seg::Sec(vec![Op::Upper]), Seg::Lit("-".into()), Seg::Sec(vec![Op::Upper])],
+                    // producers of texts that later calls split again on the same separator
+                    vec![Seg::Sec(vec![Op::Split(" ".into(), Range::Range(None, None, false)), Op::Join(",".into())])],
+                    vec![Seg::Sec(vec![Op::Split(",".into(), Range::Range(None, None, false)), Op::Map(vec![Op::Upper]), Op::Join("-".into())])],
+                    vec![Seg::Sec(vec![Op::Split(" ".into(), Range::Range(None, None, false)), Op::Join(";".into())])],
+                    vec![Seg::Sec(vec![Op::Split(";".into(), Range::Index(1))])],
                     vec![Seg::Sec(vec![Op::Split(",".into(), Range::Range(None, None, false)), Op::Map(vec![Op::Split("".into(), Range::Range(None, None, false)), Op::Join(".".into())])])],
                 ];
                 for _ in 0..3 { v.push(segments(&mut ctx.rng, 4)); }
@@ -470,7 +475,7 @@ pub fn c05(opts: &Opts) -> Report {
                 let ti = ctx.rng.below(templates.len());
                 let xi = ctx.rng.below(inputs.len());
                 let (text, secs) = &templates[ti];
-                let x = &inputs[xi];
+                let x = &inputs[xi].clone();
                 // reuse the template object or parse again
                 if parsed[ti].is_none() || ctx.rng.chance(1, 3) {
                     parsed[ti] = match real::parse(text) { real::Parsed::Ok(t) => Some(t), _ => None };
@@ -492,6 +497,8 @@ pub fn c05(opts: &Opts) -> Report {
                          vec![("template", text.clone()), ("input", x.clone()), ("history_seed", format!("{}:{}", opts.seed, i)), ("step", step.to_string()), ("observed", warm.show()), ("expected", spec.show()), ("cold", cold.show()), ("counters", format!("{counters:?}")), ("theorem", "C05_format_history".into())]);
                     return;
                 }
+                // chaining: the output of this call becomes an input of later calls
+                if let Out::Ok(o) = &warm { if o.len() < 200 && inputs.len() < 40 && !inputs.contains(o) { inputs.push(o.clone()); ctx.rep.bump("chained_inputs"); } }
                 // every 7th call: compare with a genuinely cold execution, then continue warm
                 if step % 7 == 6 {
                     let keep = hooks::counters();
@@ -522,6 +529,52 @@ pub fn c17(opts: &Opts) -> Report {
     let mut rep = run_parallel(&o2, "C17",
         "stress rounds: 2-16 threads format shared and per-thread template objects concurrently from cold caches (clear_caches() before every round); every shared template object is formatted with SEVERAL different inputs at the same time, and the workloads make threads miss, fill and hit the same split / regex cache entries together; one round per run first fills the split cache with 3000 entries and then mixes hits and fresh misses; every result is compared with the single-threaded model result (which, by C17_schedule_independent, every interleaving must produce); a watchdog flags a call that does not return; a round is non-trivial when the counters show cache hits, i.e. threads met on the same entries",
         opts.cases(150, 10_000), &|ctx, i| {
+            if i % 25 == 1 {
+                // regex-cache churn: many more distinct patterns than any plausible bound, compiled by 16 threads at once,
+                // and fresh INVALID patterns that all threads meet at the same moment; the reference is the same calls
+                // made afterwards by one thread
+                hooks::clear_caches(); hooks::reset_counters();
+                ctx.rep.eval();
+                let nthreads = 16usize; let per = 400usize; let rounds = 12usize;
+                let bar = std::sync::Barrier::new(nthreads);
+                let tag = i;
+                let call = |t: usize, j: usize| -> (String, String) {
+                    // most patterns unique to (thread, j); every fifth shared by all threads
+                    let owner = if j % 5 == 0 { 99 } else { t };
+                    (format!("{{filter:^r{tag}t{owner}j{j}x$}}"), if j % 2 == 0 { format!("r{tag}t{owner}j{j}x") } else { "no".to_string() })
+                };
+                let results: Vec<Vec<Out>> = std::thread::scope(|s| {
+                    let hs: Vec<_> = (0..nthreads).map(|t| { let bar = &bar; let call = &call; s.spawn(move || {
+                        let mut out = Vec::new();
+                        for r in 0..rounds {
+                            bar.wait();
+                            // the same never-seen invalid pattern, in three operations, by every thread at once
+                            out.push(real::parse_format(&format!("{{filter:(r{tag}n{r}}}"), "abc"));
+                            out.push(real::parse_format(&format!("{{replace:s/(q{tag}n{r}/b/}}"), "abc"));
+                            out.push(real::parse_format(&format!("{{split:,:..|map:{{filter:[z{tag}n{r}}}}}"), "a,b"));
+                        }
+                        for j in 0..per { let (tpl, x) = call(t, j); out.push(real::parse_format(&tpl, &x)); }
+                        out
+                    }) }).collect();
+                    hs.into_iter().map(|h| h.join().unwrap_or_default()).collect()
+                });
+                hooks::clear_caches();
+                for (t, rs) in results.iter().enumerate() {
+                    if rs.len() != rounds * 3 + per { viol(ctx, "property", format!("C17: thread {t} of regex-churn round {i} died"), vec![("round", format!("{}:{}", opts.seed, i)), ("theorem", "C17".into())]); return; }
+                    for (k, o) in rs.iter().enumerate() {
+                        ctx.rep.bump("concurrent_calls");
+                        let (tpl, x) = if k < rounds * 3 { let r = k / 3; (match k % 3 { 0 => format!("{{filter:(r{tag}n{r}}}"), 1 => format!("{{replace:s/(q{tag}n{r}/b/}}"), _ => format!("{{split:,:..|map:{{filter:[z{tag}n{r}}}}}") }, if k % 3 == 2 { "a,b".to_string() } else { "abc".to_string() }) } else { call(t, k - rounds * 3) };
+                        let alone = real::parse_format(&tpl, &x);
+                        if *o != alone {
+                            viol(ctx, "property", format!("C17: with 16 threads compiling {} distinct patterns, format({tpl:?}, {x:?}) = {} but alone it is {}", nthreads * per, o.show(), alone.show()),
+                                 vec![("template", tpl), ("input", x), ("threads", "16".into()), ("round", format!("{}:{}", opts.seed, i)), ("observed", o.show()), ("expected", alone.show()), ("theorem", "C17_concurrent_formats".into())]);
+                            return;
+                        }
+                    }
+                }
+                ctx.rep.bump("regex_churn_rounds"); ctx.rep.nontrivial(&(opts.seed, i));
+                return;
+            }
             let nthreads = 2 + ctx.rng.below(15);
             // templates (parsed once, shared) and inputs: every template meets every input
             let mut templates: Vec<(String, Vec<Section>)> = Vec::new();
